@@ -22,6 +22,7 @@ REQUIRED_THEOREMS = [
     "Ink.C04.native_call_ok_or_err", "Ink.C04.popEvalMultiple_no_panic", "Ink.C04.int_unary_inRange",
     "Ink.C04.int_call_results_inRange", "Ink.C04.error_blocks_continue", "Ink.C04.reset_independent_of_state",
     "Ink.C04.reset_after_error_no_errors", "Ink.C04.continueSingleStep_err_origin",
+    "Ink.C04.native_call_never_panics", "Ink.C04.step_panic_sites", "Ink.C04.continueSingleStep_panic_sites",
 ]
 RULE = ("a case = (a) one fault-prone expression tree (operand types chosen at random with probability 0.35, plus the "
         "ill-typed part of the exhaustive depth-1 enumeration), compiled and played; or (b) one fault-prone program "
@@ -305,7 +306,9 @@ def run(ctx):
                     ctx.corr_diff("expression value (Ink/Expr vs compile+play)",
                                   {"expression": row["text"], "evaluator": row.get("spec"), "code": row.get("code")})
     # (b) fault-prone programs
-    pool_s = stories.probe_pool(ctx, "c04")
+    # hand-written story documents that used to panic somewhere in the interpreter (corpus/c15/SITES.md)
+    pool_s = stories.probe_pool(ctx, "c04") + stories.probe_pool(ctx, "c15/hardening-seeds") \
+        + stories.probe_pool(ctx, "c15/engine-findings")
     for prof, n in (("errors", 60 if quick else 1500), ("core", 15 if quick else 300), ("lists", 12 if quick else 300),
                     ("externals", 12 if quick else 200), ("lists_random", 6 if quick else 100)):
         pool_s += stories.generated_pool(ctx, prof, n)
